@@ -76,7 +76,7 @@ type Stmt struct {
 	OmitS bool     `json:"omits,omitempty"`
 	ColV  bool     `json:"colv,omitempty"` // SET v = X (else SET s = X); also for DO UPDATE
 	X     Val      `json:"x"`
-	Where string   `json:"where,omitempty"` // "", "id", "v"
+	Where string   `json:"where,omitempty"` // "" (all rows), "id"
 	WK    int64    `json:"wk,omitempty"`
 }
 
@@ -105,8 +105,6 @@ func (s Stmt) whereSQL() string {
 	switch s.Where {
 	case "id":
 		return fmt.Sprintf(" WHERE id = %d", s.WK)
-	case "v":
-		return fmt.Sprintf(" WHERE v = %d", s.WK)
 	}
 	return ""
 }
@@ -114,8 +112,6 @@ func (s Stmt) whereCoq() string {
 	switch s.Where {
 	case "id":
 		return "(WId " + zc(s.WK) + ")"
-	case "v":
-		return "(WVeq " + zc(s.WK) + ")"
 	}
 	return "WAll"
 }
@@ -293,9 +289,11 @@ type Obs struct {
 }
 
 type env struct {
-	dir string
-	st  *store.ImmuStore
-	e   *sql.Engine
+	dir      string
+	st       *store.ImmuStore
+	e        *sql.Engine
+	tableID  uint32
+	uniqueID uint32
 }
 
 func newEnv() (*env, error) {
@@ -316,7 +314,7 @@ func newEnv() (*env, error) {
 		os.RemoveAll(dir)
 		return nil, err
 	}
-	return &env{dir, st, e}, nil
+	return &env{dir: dir, st: st, e: e}, nil
 }
 func (v *env) close() { v.st.Close(); os.RemoveAll(v.dir) }
 
@@ -378,6 +376,33 @@ func (v *env) table() ([]TRow, error) {
 	return out, nil
 }
 
+// historyValues lists every value some statement of the history can store in column v
+func historyValues(evs []Event) []Val {
+	seen := map[string]bool{}
+	out := []Val{}
+	add := func(x Val) {
+		if x.K == 2 {
+			return
+		}
+		if !seen[x.Key()] {
+			seen[x.Key()] = true
+			out = append(out, x)
+		}
+	}
+	add(VNull())
+	for _, ev := range evs {
+		for _, s := range ev.Stmts {
+			for _, r := range s.Rows {
+				add(r.V)
+			}
+			if s.ColV {
+				add(s.X)
+			}
+		}
+	}
+	return out
+}
+
 func idxOf(rows []TRow, id int64) int {
 	for i, r := range rows {
 		if r.ID == id {
@@ -387,41 +412,51 @@ func idxOf(rows []TRow, id int64) int {
 	return 0
 }
 
+// indexPrefix returns the key prefix of the primary index (primary=true) or of the UNIQUE index on v
+// extended with the encoded value x.
+func (v *env) indexPrefix(primary bool, x Val) []byte {
+	if v.tableID == 0 || (!primary && v.uniqueID == 0) {
+		ctx := context.Background()
+		tx, err := v.e.NewTx(ctx, sql.DefaultTxOptions().WithReadOnly(true))
+		if err != nil {
+			return nil
+		}
+		table, err := tx.Catalog().GetTableByName("t")
+		tx.Cancel()
+		if err != nil {
+			return nil
+		}
+		v.tableID = table.ID()
+		for _, i := range table.GetIndexes() {
+			if i.IsUnique() && !i.IsPrimary() {
+				v.uniqueID = i.ID()
+			}
+		}
+	}
+	if primary {
+		return sql.MapKey([]byte("sql"), sql.MappedPrefix, sql.EncodeID(v.tableID), sql.EncodeID(0))
+	}
+	if v.uniqueID == 0 {
+		return nil
+	}
+	var raw interface{}
+	if x.K == 1 {
+		raw = x.I
+	}
+	enc, _, err := sql.EncodeRawValueAsKey(raw, sql.IntegerType, 8)
+	if err != nil {
+		return nil
+	}
+	return sql.MapKey([]byte("sql"), sql.MappedPrefix, sql.EncodeID(v.tableID), sql.EncodeID(v.uniqueID), enc)
+}
+
 // firstIsTomb looks at the store's index directly (no filters): is the first entry under the
 // primary-index prefix / under the unique index's prefix for value x a deleted entry?
 func (v *env) firstIsTomb(primary bool, x Val) bool {
 	ctx := context.Background()
-	tx, err := v.e.NewTx(ctx, sql.DefaultTxOptions().WithReadOnly(true))
-	if err != nil {
+	prefix := v.indexPrefix(primary, x)
+	if prefix == nil {
 		return false
-	}
-	table, err := tx.Catalog().GetTableByName("t")
-	tx.Cancel()
-	if err != nil {
-		return false
-	}
-	var prefix []byte
-	if primary {
-		prefix = sql.MapKey([]byte("sql"), sql.MappedPrefix, sql.EncodeID(table.ID()), sql.EncodeID(0))
-	} else {
-		var idx *sql.Index
-		for _, i := range table.GetIndexes() {
-			if i.IsUnique() && !i.IsPrimary() {
-				idx = i
-			}
-		}
-		if idx == nil {
-			return false
-		}
-		var raw interface{}
-		if x.K == 1 {
-			raw = x.I
-		}
-		enc, _, err := sql.EncodeRawValueAsKey(raw, sql.IntegerType, 8)
-		if err != nil {
-			return false
-		}
-		prefix = sql.MapKey([]byte("sql"), sql.MappedPrefix, sql.EncodeID(table.ID()), sql.EncodeID(idx.ID()), enc)
 	}
 	snap, err := v.st.SnapshotMustIncludeTxID(ctx, prefix, v.st.LastPrecommittedTxID())
 	if err != nil {
@@ -452,6 +487,9 @@ type checker struct {
 	// firstIsTomb reports whether the first entry under the primary-index prefix (primary=true) or
 	// under the unique index's prefix for value v is a tombstone, read from the store without filters
 	firstIsTomb func(primary bool, v Val) bool
+	vals        []Val             // every value the history can store in v
+	tombFirst   []map[string]bool // per event: values whose first unique-index entry was a tombstone before it
+	begin       map[int]int       // per session: index of the event that opened its transaction
 }
 
 func describe(cfg Cfg, evs []Event, upto int) string {
@@ -474,7 +512,7 @@ func stmtsHave(ss []Stmt, f func(Stmt) bool) bool {
 
 // check compares the table before and after an event with the declared constraints; `stmts` are
 // the statements whose effects the event made visible (for a COMMIT: those of the transaction).
-func (ck *checker) check(ev Event, stmts []Stmt, ok bool, before, after []TRow, where string) []string {
+func (ck *checker) check(idx int, ev Event, stmts []Stmt, ok bool, before, after []TRow, where string) []string {
 	var out []string
 	add := func(s string) { out = append(out, "C12 "+s+" | history: "+where) }
 	if !ok && !rowsEq(before, after) {
@@ -571,8 +609,20 @@ func (ck *checker) check(ev Event, stmts []Stmt, ok bool, before, after []TRow, 
 			if oldBy[k] >= len(ids) {
 				continue
 			}
-			// signature of the known defect: the first index entry under the value prefix is a tombstone
-			if ck.firstIsTomb != nil && ck.firstIsTomb(false, after[idxOf(after, ids[0])].V) {
+			// signature of the known defect: when the statement that made the duplicate ran (at some
+			// point since its transaction began), the first index entry under the value prefix was
+			// a tombstone
+			from := idx
+			if b, ok := ck.begin[ev.Sid]; ok && ev.Act == "commit" {
+				from = b
+			}
+			shadow := false
+			for j := from; j <= idx && j < len(ck.tombFirst); j++ {
+				if ck.tombFirst[j][k] {
+					shadow = true
+				}
+			}
+			if shadow {
 				add(fTombUnique + fmt.Sprintf(" value %s rows %v", k, ids))
 			} else {
 				add(fmt.Sprintf("UNIQUE index on t(v) holds duplicate live rows: value %s rows %v", k, ids))
@@ -601,11 +651,27 @@ func runHistory(cfg Cfg, evs []Event) ([]Obs, []string, error) {
 	if err != nil {
 		return nil, nil, err
 	}
+	ck.vals = historyValues(evs)
+	ck.begin = map[int]int{}
 	for i, ev := range evs {
 		tx := txs[ev.Sid]
 		var err error
 		var ntx *sql.SQLTx
 		visible := ev.Stmts
+		probe := map[string]bool{}
+		if ck.unique {
+			for _, x := range ck.vals {
+				if v.firstIsTomb(false, x) {
+					probe[x.Key()] = true
+				}
+			}
+		}
+		ck.tombFirst = append(ck.tombFirst, probe)
+		if ev.Act == "begin" {
+			ck.begin[ev.Sid] = i
+		} else if tx == nil {
+			delete(ck.begin, ev.Sid)
+		}
 		switch ev.Act {
 		case "begin":
 			ntx, err = v.exec(nil, "BEGIN TRANSACTION")
@@ -657,7 +723,7 @@ func runHistory(cfg Cfg, evs []Event) ([]Obs, []string, error) {
 			o.Err = err.Error()
 		}
 		obs = append(obs, o)
-		findings = append(findings, ck.check(ev, visible, err == nil, before, after, describe(cfg, evs, i))...)
+		findings = append(findings, ck.check(i, ev, visible, err == nil, before, after, describe(cfg, evs, i))...)
 		before = after
 	}
 	for _, tx := range txs {
